@@ -215,8 +215,8 @@ item_ivlen(const item_t *it)
         return it->ivlen ? it->ivlen : ALGS[it->alg].ivlens[0];
 }
 
-void
-alg_fill(IMB_MGR *m, IMB_JOB *j, const item_t *it)
+static void
+fill_one(IMB_MGR *m, IMB_JOB *j, const item_t *it)
 {
         const alg_t *A = &ALGS[it->alg];
         const keyset_t *k = it->ks;
@@ -439,6 +439,69 @@ alg_fill(IMB_MGR *m, IMB_JOB *j, const item_t *it)
         }
         if (it->chain_order)
                 j->chain_order = (IMB_CHAIN_ORDER) it->chain_order;
+}
+
+void
+alg_fill(IMB_MGR *m, IMB_JOB *j, const item_t *it)
+{
+        fill_one(m, j, it);
+        if (!it->alg2)
+                return;
+        /* overlay the hash row on a cipher job */
+        IMB_JOB h;
+        item_t hi = *it;
+        hi.alg = it->alg2;
+        hi.alg2 = 0;
+        hi.len = it->hlen;
+        hi.off = it->hoff;
+        hi.iv = it->hiv;
+        hi.ivlen = it->hivlen;
+        hi.minimal = 0;
+        hi.chain_order = 0;
+        fill_one(m, &h, &hi);
+        j->hash_alg = h.hash_alg;
+        j->hash_start_src_offset_in_bytes = h.hash_start_src_offset_in_bytes;
+        j->msg_len_to_hash_in_bytes = h.msg_len_to_hash_in_bytes;
+        j->auth_tag_output = h.auth_tag_output;
+        j->auth_tag_output_len_in_bytes = h.auth_tag_output_len_in_bytes;
+        j->u = h.u;
+        if (!it->chain_order)
+                j->chain_order = it->dir ? IMB_ORDER_CIPHER_HASH : IMB_ORDER_HASH_CIPHER;
+}
+
+int
+alg_ref_chain(const item_t *it, uint8_t *ed, uint8_t *et)
+{
+        /* cipher stage result */
+        item_t ci = *it;
+        ci.alg2 = 0;
+        uint32_t nb = item_nbytes(&ci);
+        uint8_t niv[16];
+        alg_ref(&ci, NULL, ed, NULL, niv);
+        /* what the hash stage reads: src[hoff..) - in place and cipher-first => cipher output where ranges overlap */
+        int order = it->chain_order ? it->chain_order : (it->dir ? IMB_ORDER_CIPHER_HASH : IMB_ORDER_HASH_CIPHER);
+        item_t hi = *it;
+        hi.alg = it->alg2;
+        hi.alg2 = 0;
+        hi.len = it->hlen;
+        hi.off = 0;
+        hi.iv = it->hiv;
+        hi.ivlen = it->hivlen;
+        uint32_t hb = item_nbytes(&hi);
+        uint8_t *view = malloc((size_t) hb + 16);
+        memcpy(view, it->src + it->hoff, hb);
+        if (order == IMB_ORDER_CIPHER_HASH && it->dst == it->src + it->off) {
+                /* dst aliases src[off..off+nb): overlay the cipher output */
+                for (uint32_t i = 0; i < nb; i++) {
+                        int64_t p = (int64_t) it->off + i - it->hoff;
+                        if (p >= 0 && p < (int64_t) hb)
+                                view[p] = ed[i];
+                }
+        }
+        hi.src = view;
+        alg_ref(&hi, NULL, NULL, et, NULL);
+        free(view);
+        return 3;
 }
 
 int
